@@ -267,6 +267,8 @@ class J:
         if isinstance(n, J):
             raise Undecided('jet exponent')
         if isinstance(n, (float, _np.floating)) and not float(n).is_integer():
+            if self.F.kind == 'f':
+                return self.rational_power(float(n))
             fr = Fraction(float(n)).limit_denominator(1000)
             if abs(float(fr) - float(n)) > 1e-15:
                 raise Undecided(f'irrational power {n}')
@@ -478,6 +480,53 @@ class J:
         if self.is_identically_zero():
             return J(self.F, self.o, {ZERO_MI: self.F.num(1)})
         raise Undecided('exp of an unregistered quantity')
+
+    # -- smooth scalar functions on float jets (numeric evidence only: C17) -------
+    def compose(self, derivs):
+        """f(self) from [f(a0), f'(a0), f''(a0), ...] (Taylor composition)"""
+        a0 = self.value()
+        u = J(self.F, self.o, {m: v for m, v in self.c.items() if m != ZERO_MI})
+        r = J.const(self.F, derivs[0])
+        pw = J.const(self.F, 1.0)
+        top = self.o if self.o != INF else 0
+        fact = 1.0
+        for k in range(1, top + 1):
+            pw = pw * u
+            fact *= k
+            r = r + pw * (derivs[k] / fact)
+        return J(self.F, self.o, r.c)
+
+    def _need_float(self, name):
+        if self.F.kind != 'f':
+            raise Undecided(f'{name} of a symbolic scalar (only available on float jets)')
+
+    def sin(self):
+        import math
+        self._need_float('sin')
+        a = self.value()
+        s_, c_ = math.sin(a), math.cos(a)
+        return self.compose([s_, c_, -s_, -c_, s_, c_][: (self.o if self.o != INF else 0) + 1])
+
+    def cos(self):
+        import math
+        self._need_float('cos')
+        a = self.value()
+        s_, c_ = math.sin(a), math.cos(a)
+        return self.compose([c_, -s_, -c_, s_, c_, -s_][: (self.o if self.o != INF else 0) + 1])
+
+    def sinh(self):
+        import math
+        self._need_float('sinh')
+        a = self.value()
+        s_, c_ = math.sinh(a), math.cosh(a)
+        return self.compose([s_, c_, s_, c_, s_, c_][: (self.o if self.o != INF else 0) + 1])
+
+    def cosh(self):
+        import math
+        self._need_float('cosh')
+        a = self.value()
+        s_, c_ = math.sinh(a), math.cosh(a)
+        return self.compose([c_, s_, c_, s_, c_, s_][: (self.o if self.o != INF else 0) + 1])
 
     def conjugate(self):
         return self
